@@ -84,6 +84,14 @@ def build_scene(cell, seed):
     for _ in range(3):
         a, b = sorted((r.randint(0, L), r.randint(0, L)))
         cuts.append([[0, 4, 8, L0] if L0 >= 8 else [0, 0, 0, L0], [0, a, b, L], [0, 0, L2, L2]])
+    # trickle: the target stream arrives one byte per packet while another stream comes complete in the first
+    # (or only in the last) packet - many consecutive packets that complete no point at all
+    k = min(L, 12)
+    if k >= 2:
+        tgt = list(range(0, k + 1)) + ([L] if k < L else [])
+        npk = len(tgt) - 1
+        cuts.append([[0] + [L0] * npk, tgt, [0] * npk + [L2]])
+        cuts.append([[0] * npk + [L0], tgt, [0] + [L2] * npk])
     pcs = []
     for cs in cuts:
         pcs.append({"guid": "c", "prototype": proto, "points": pts, "records": n, "_cuts": cs})
